@@ -19,18 +19,21 @@ Record case := {
   c_again : list (option float * option float); (* further runs on the same Doist: (effective limit, tyme reset) *)
   c_async : bool;                              (* the observation was made with asyncio.run(doist.ado(...)) *)
   c_fresh : list (option float * float);       (* after those, runs of the same doers under NEW Doists: (limit, tyme) *)
+  c_manual : option nat;                       (* Some n: driven by hand instead: enter(), n recur()s, exit() *)
 }.
 
 Definition cycles_budget : nat := 400.
 Definition fuel_budget : nat := 3000.
 
 Definition run_case0 (c : case) : st float :=
+  match c_manual c with Some n => manual_run n fuel_budget (c_prog c) | None =>
   if c_async c then
     fold_left (fun s '(l, t) => ado_again cycles_budget fuel_budget (p_tock (c_prog c)) l t s)
               (c_again c) (ado_run cycles_budget fuel_budget (c_prog c))
   else
     fold_left (fun s '(l, t) => do_again cycles_budget fuel_budget (p_tock (c_prog c)) l t s)
-              (c_again c) (do_run cycles_budget fuel_budget (c_prog c)).
+              (c_again c) (do_run cycles_budget fuel_budget (c_prog c))
+  end.
 
 Definition run_case (c : case) : st float :=
   fold_left (fun s '(l, t) => do_fresh cycles_budget fuel_budget (p_tock (c_prog c)) l t (p_doers (c_prog c)) s)
